@@ -78,27 +78,31 @@ func Metrics(ver int) []Metric {
 	return V3
 }
 
-// UpTo returns the metrics of a version up to and including level.
-func UpTo(ver, level int) []Metric {
-	var r []Metric
-	for _, m := range Metrics(ver) {
-		if m.Level <= level {
-			r = append(r, m)
+var (
+	upTo [4][3][]Metric
+	at   [4][3][]Metric
+)
+
+func init() {
+	for _, ver := range []int{2, 3} {
+		for level := 0; level < 3; level++ {
+			for _, m := range Metrics(ver) {
+				if m.Level <= level {
+					upTo[ver][level] = append(upTo[ver][level], m)
+				}
+				if m.Level == level {
+					at[ver][level] = append(at[ver][level], m)
+				}
+			}
 		}
 	}
-	return r
 }
 
-// At returns the metrics of exactly one level.
-func At(ver, level int) []Metric {
-	var r []Metric
-	for _, m := range Metrics(ver) {
-		if m.Level == level {
-			r = append(r, m)
-		}
-	}
-	return r
-}
+// UpTo returns the metrics of a version up to and including level (shared slice: do not modify).
+func UpTo(ver, level int) []Metric { return upTo[ver][level] }
+
+// At returns the metrics of exactly one level (shared slice: do not modify).
+func At(ver, level int) []Metric { return at[ver][level] }
 
 // Find returns the metric with the given name (nil if none).
 func Find(ver int, name string) *Metric {
